@@ -72,6 +72,32 @@ inline OV o_sumrows(OM const& m){ OV r(m.n1, 0.0); for(std::size_t i = 0; i != m
 inline OV o_sumcols(OM const& m){ return o_sumrows(o_trans(m)); }
 inline OV o_maxrows(OM const& m){ return o_foldrows(f_max, m); }
 inline OV o_mincols(OM const& m){ return o_foldrows(f_min, o_trans(m)); }
+// row-wise reductions red(as_rows(M)) by their defining formula (one pass per row, seeded with the row's first element;
+// rows without elements give 0, the value remora's assign_to leaves in the cleared target)
+enum Red{ R_SUM, R_MAX, R_MIN, R_NORM1, R_NORMSQR, R_NORMINF };
+inline OV o_fold(Red r, bool rows, OM const& m0){
+	OM m = rows ? m0 : OM();
+	if(!rows){ m = OM(m0.n2, m0.n1); for(std::size_t i = 0; i != m0.n1; ++i) for(std::size_t j = 0; j != m0.n2; ++j) m(j,i) = m0(i,j); }
+	OV out(m.n1, 0.0);
+	if(m.n2 == 0){ need(r == R_SUM || r == R_NORM1 || r == R_NORMSQR, "max/min fold of empty rows"); return out; }
+	for(std::size_t i = 0; i != m.n1; ++i){
+		std::vector<double> x(m.n2);
+		for(std::size_t j = 0; j != m.n2; ++j){ double a = m(i,j); x[j] = (r == R_NORM1 || r == R_NORMINF) ? f_abs(a) : (r == R_NORMSQR ? a*a : a); }
+		double s = x[0];
+		for(std::size_t j = 1; j != m.n2; ++j) s = (r == R_MAX || r == R_NORMINF) ? f_max(s, x[j]) : (r == R_MIN ? f_min(s, x[j]) : s + x[j]);
+		out[i] = s;
+	}
+	return out;
+}
+// to_triangular(M, tag): the other triangle reads as 0, the diagonal of the unit variants as 1
+inline OM o_tri(bool upper, bool unit, OM m){
+	need(m.n1 == m.n2, "tri");
+	for(std::size_t i = 0; i != m.n1; ++i) for(std::size_t j = 0; j != m.n2; ++j){
+		if(i == j){ if(unit) m(i,j) = 1.0; }
+		else if(!((upper && i < j) || (!upper && j < i))) m(i,j) = 0.0;
+	}
+	return m;
+}
 inline OV o_tovec(OM const& m){ return m.x; }
 // to_vector of a container linearises in STORAGE order: row-major for A, column-major for B
 inline OV o_tovecA(Store const& S, std::size_t k){ return o_A(S,k).x; }
@@ -141,6 +167,9 @@ inline double o_sum(OV const& v){ double s = 0; for(double x: v) s += x; return 
 inline double o_max(OV const& v){ need(!v.empty(), "max of empty"); double s = v[0]; for(double x: v) s = f_max(s, x); return s; }
 inline double o_min(OV const& v){ need(!v.empty(), "min of empty"); double s = v[0]; for(double x: v) s = f_min(s, x); return s; }
 inline double o_inner(OV const& a, OV const& b){ need(a.size() == b.size(), "inner"); double s = 0; for(std::size_t i = 0; i != a.size(); ++i) s += a[i]*b[i]; return s; }
+inline double o_frob(OM const& a, OM const& b){ need(a.n1 == b.n1 && a.n2 == b.n2, "frobenius_prod"); double s = 0; for(std::size_t i = 0; i != a.n1; ++i){ double r = 0; for(std::size_t j = 0; j != a.n2; ++j) r += a(i,j)*b(i,j); s += r; } return s; }
+inline double o_mnorm1(OM const& m){ need(m.n2 > 0, "norm_1 of a matrix without columns"); return o_max(o_fold(R_NORM1, false, m)); }
+inline double o_mnorminf(OM const& m){ need(m.n1 > 0, "norm_inf of a matrix without rows"); return o_max(o_fold(R_NORM1, true, m)); }
 inline double o_trace(OM const& m){ need(m.n1 == m.n2, "trace"); double s = 0; for(std::size_t i = 0; i != m.n1; ++i) s += m(i,i); return s; }
 }
 #endif
